@@ -34,6 +34,27 @@ SelfJudged(r, items, bind) ==
           (items[k].v /\ items[k].name \in DOMAIN bind) =>
               LET b == bind[items[k].name] IN
               HasNL(SubSeq(r.src, b.lo + 1, b.hi)) => WellIndented(r.src, b.lo, b.hi)
+\* the same statement for text indented with TAB characters only (every line starts with tabs followed by a character
+\* that is neither a tab nor a space, tabs occur nowhere else, no CR): relative indentation is then counted in tabs
+RECURSIVE LeadingTabs(_)
+LeadingTabs(line) == IF line = <<>> \/ line[1] # "\t" THEN 0 ELSE 1 + LeadingTabs(Tail(line))
+PureTabIndent(src) ==
+    /\ \E i \in 1..Len(src) : src[i] = "\t"
+    /\ \A i \in 1..Len(src) : src[i] # "\r"
+    /\ LET ls == SplitLines(src) IN
+       \A k \in 1..Len(ls) : LET n == LeadingTabs(ls[k]) IN
+           /\ \A j \in (n + 1)..Len(ls[k]) : ls[k][j] # "\t"
+           /\ (Len(ls[k]) > n => ls[k][n + 1] # " ")
+TabsBefore(src, off) ==      \* leading tabs of the line that contains offset off
+    LET before == { i \in 1..off : src[i] = NL }
+        start == IF before = {} THEN 0 ELSE CHOOSE i \in before : \A j \in before : j <= i IN
+    LeadingTabs(SubSeq(src, start + 1, Len(src)))
+SelfJudgedTabs(r, items, bind) ==
+    /\ TemplateJudged(r.raw, 1) /\ NoTabs(r.raw) /\ PureTabIndent(r.src)
+    /\ \A k \in 1..Len(items) :
+          (items[k].v /\ items[k].name \in DOMAIN bind) =>
+              LET b == bind[items[k].name]  ls == SplitLines(SubSeq(r.src, b.lo + 1, b.hi)) IN
+              \A j \in 2..Len(ls) : ls[j] # <<>> /\ LeadingTabs(ls[j]) < Len(ls[j]) /\ LeadingTabs(ls[j]) >= TabsBefore(r.src, b.lo)
 \* the indentation of a line is looked for at most LookBehind characters back: the match may start within that
 \* distance of its line's start while a multi-line capture on the same line starts beyond it
 AtLookBehindBoundary(r, bind) ==
@@ -51,6 +72,7 @@ TplReasons(r) ==
     \* "rewriting a node to itself is a no-op" is judged on lines of any length
     \cup (IF ~r.self \/ ~SelfJudged(r, items, bind) \/ r.out = SubSeq(r.src, r.site + 1, r.siteEnd) THEN {}
           ELSE IF AtLookBehindBoundary(r, bind) THEN {"known:lookbehind-boundary"} ELSE {"self-rewrite"})
+    \cup (IF ~r.self \/ ~SelfJudgedTabs(r, items, bind) \/ r.out = SubSeq(r.src, r.site + 1, r.siteEnd) THEN {} ELSE {"self-rewrite"})
 TplDrift(r) ==
     LET items == TemplateItems(r.raw, 1) IN
     IF r.panic \/ r.out = GenerateReplacement(r.src, r.raw, items, BindFor(r, items), r.site) THEN {} ELSE {"indent-model"}
